@@ -1353,6 +1353,67 @@ def key_type_rejections(ctx, rep, rule):
                   "derivation passes the privacy algorithm's code to the authentication key object" % flow.fmt(g.term)[:100], body.loc(g.line), obligation=True)
     if n < 2:
         rep.inconclusive(rule, "AuthKey::as_key_type|refusals", "%d deciding guards found" % n, body.loc())
+    # the installers receive (key, engine id) in this order: both are &[u8], a swap type-checks
+    for b in body.calls():
+        last = (callee_path(b.term) or "").split("::")[-1]
+        if last not in ("as_password", "as_master", "as_localized"):
+            continue
+        a = [prov.operand(x) for x in b.term["args"]]
+        want = [("arg", 3), ("arg", 4)] if last != "as_localized" else [("arg", 3)]
+        got = a[1:1 + len(want)]
+        if all(x[0] == "arg" for x in got):
+            rep.check(rule, "AuthKey::as_key_type|%s(key, engine id)" % last, got == want, "key, then engine id", "%s is called with %s: the key and the engine id are "
+                      "swapped, the localized key is H(engine id, key, engine id)" % (last, [flow.fmt(x) for x in got]), body.loc(b.term["line"]), obligation=True)
+
+
+def send_result_used(ctx, rep, rule):
+    """What `_send_inner` reports reaches the caller: its Result is propagated (`?`, returned, matched), never dropped.  A
+    `let _ = self._send_inner(pdu)` turns the OutOfBuffer of a request that does not fit into a silent wait for a reply that
+    cannot come (TimeoutError instead of SnmpEncodeError, after the whole timeout)."""
+    facts = ctx.facts
+    n = 0
+    for body in facts.body_list:
+        for b in body.calls():
+            if not (callee_path(b.term) or "").endswith("::_send_inner"):
+                continue
+            n += 1
+            d = b.term["dest"]
+            used = False
+            if d["p"] or d["l"] == 0:
+                used = True
+            else:
+                for x in body.live_blocks():
+                    for st_ in x.stmts:
+                        if st_["k"] == "assign" and flow_uses(st_["rv"], d["l"]):
+                            used = True
+                    t = x.term
+                    if t and t["k"] == "call" and x is not b and any(((a.get("move") or a.get("copy") or {}).get("l") == d["l"]) for a in t["args"]):
+                        used = True
+                    if t and t["k"] == "switch" and (t["discr"].get("move") or t["discr"].get("copy") or {}).get("l") == d["l"]:
+                        used = True
+            rep.check(rule, "%s|result of _send_inner" % body.path, used, "propagated", "the Result of _send_inner is dropped: a request that could not be "
+                      "encoded or sent is waited for as if it had left", body.loc(b.term["line"]), obligation=True)
+    if n < 2:
+        rep.missing(rule, "_send_inner call sites (found %d)" % n)
+
+
+def flow_uses(rv, l):
+    """Does the rvalue read local l (operand, place of a ref / discriminant)?"""
+    def pl_l(x):
+        return x.get("l") if isinstance(x, dict) and "l" in x else None
+    for k in ("op", "a", "b"):
+        o = rv.get(k)
+        if isinstance(o, dict):
+            p_ = o.get("move") or o.get("copy")
+            if p_ and p_.get("l") == l:
+                return True
+    if pl_l(rv.get("place")) == l:
+        return True
+    for o in rv.get("ops", []) or []:
+        p_ = o.get("move") or o.get("copy") if isinstance(o, dict) else None
+        if p_ and p_.get("l") == l:
+            return True
+    return False
 
 
 def nested_lengths(ctx, rep, rule):
@@ -1385,6 +1446,57 @@ def nested_lengths(ctx, rep, rule):
             elif _is_call(t, "[T]>::len") or _is_call(t, "::len"):
                 kind = "chunk"
             key = "%s|push_tag_len#%d length" % (body.path, i)
+            if kind == "diff":
+                # an element pushed once per iteration is measured from a mark taken in the same iteration: a mark from before
+                # the loop makes every element but the first span its predecessors too
+                lps = [bl for h_, bl in cfg.natural_loops(body).items() if b.idx in bl]
+                if lps:
+                    inner = min(lps, key=len)
+                    mark_blocks = {x.idx for x in body.calls() if (callee_path(x.term) or "").endswith("Buffer::len")}
+                    # the subtrahend of the difference: the local it is read from must be assigned in the loop
+                    sub = b.term["args"][2]
+                    okm = None
+                    dl = (sub.get("move") or sub.get("copy") or {}).get("l")
+                    defs = [x for x in body.live_blocks() for st_ in x.stmts if st_["k"] == "assign" and not st_["place"]["p"] and st_["place"]["l"] == dl and st_["rv"]["k"] == "bin"]
+                    # the subtraction that feeds this length operand: args[2] = move (_t.0) with _t = SubWithOverflow(len, mark), or = Sub(len, mark)
+                    feed = set()
+                    if dl is not None:
+                        feed.add(dl)
+                        for x in body.live_blocks():
+                            for st_ in x.stmts:
+                                if st_["k"] == "assign" and not st_["place"]["p"] and st_["place"]["l"] == dl and st_["rv"]["k"] == "use":
+                                    src_ = st_["rv"]["op"].get("move") or st_["rv"]["op"].get("copy") or {}
+                                    if src_.get("l") is not None:
+                                        feed.add(src_["l"])
+                    for x in body.live_blocks():
+                        for st_ in x.stmts:
+                            if st_["k"] == "assign" and not st_["place"]["p"] and st_["place"]["l"] in feed and st_["rv"]["k"] == "bin" and \
+                                    st_["rv"].get("op", "").startswith("Sub") and x.idx in inner:
+                                ml = (st_["rv"]["b"].get("move") or st_["rv"]["b"].get("copy") or {}).get("l")
+                                if ml is None:
+                                    continue
+                                # where does the mark get its value?  (through plain copies `_k = start` back to the defining call)
+                                cur_l, chain = ml, set()
+                                for _ in range(4):
+                                    copies = [s2 for y in body.live_blocks() for s2 in y.stmts if s2["k"] == "assign" and not s2["place"]["p"] and s2["place"]["l"] == cur_l]
+                                    callsd = [y.idx for y in body.calls() if not y.term["dest"]["p"] and y.term["dest"]["l"] == cur_l]
+                                    if callsd:
+                                        chain = set(callsd)
+                                        break
+                                    if len(copies) == 1 and copies[0]["rv"]["k"] == "use":
+                                        nx = (copies[0]["rv"]["op"].get("move") or copies[0]["rv"]["op"].get("copy") or {})
+                                        if nx.get("p") or nx.get("l") is None:
+                                            break
+                                        cur_l = nx["l"]
+                                        continue
+                                    chain = {y.idx for y in body.live_blocks() for s2 in y.stmts if s2 in copies}
+                                    break
+                                if chain:
+                                    okm = bool(chain & inner) if okm is None else (okm and bool(chain & inner))
+                    if okm is False:
+                        rep.violation(rule, key, "an element pushed inside a loop is measured from a mark taken before the loop (buf.len() - mark with the mark outside): "
+                                      "every element after the first also spans the ones pushed before it", body.loc(b.term["line"]), obligation=True)
+                        continue
             if kind in ("const", "diff", "chunk"):
                 rep.ok(rule, key, {"const": "constant", "diff": "buf.len() - start", "chunk": "length of the chunk pushed"}[kind], body.loc(b.term["line"]), obligation=True)
             elif kind == "bare":
